@@ -15,7 +15,7 @@ Hypothesis L : RuntimeLaws rt.
 Lemma decode_text c s : decode rt (text rt c s) = Ok (VText CStr s).
 Proof. destruct c; cbn [text decode]; try reflexivity; rewrite (utf8_rt rt L); reflexivity. Qed.
 
-Lemma text_not_instance c s k : forall r, decode rt (text rt c s) = Ok r -> isinstance_num k r = false.
+Lemma text_not_instance c s k : forall r, decode rt (text rt c s) = Ok r -> isinstance_num rt k r = false.
 Proof. intros r. rewrite decode_text. intros H; injection H as <-. destruct k; reflexivity. Qed.
 
 Lemma text_not_temporal c s : is_temporal (text rt c s) = false.
@@ -24,27 +24,31 @@ Proof. destruct c; reflexivity. Qed.
 Lemma number_of_text k c s : unm_number rt k (text rt c s) = num_ctor rt k (VText CStr s).
 Proof.
   unfold unm_number. rewrite decode_text. cbn [bind].
-  replace (isinstance_num k (VText CStr s)) with false by (destruct k; reflexivity).
+  replace (isinstance_num rt k (VText CStr s)) with false by (destruct k; reflexivity).
   rewrite text_not_temporal. reflexivity.
 Qed.
 
 Lemma text_int c z : unm_number rt KInt (text rt c (canon_text rt (VInt z))) = Ok (VInt z).
-Proof. rewrite number_of_text. cbn [num_ctor]. rewrite (int_text_rt rt L). reflexivity. Qed.
+Proof. rewrite number_of_text. cbn [num_ctor view]. rewrite (int_text_rt rt L). reflexivity. Qed.
 Lemma text_float c f : unm_number rt KFloat (text rt c (canon_text rt (VFloat f))) = Ok (VFloat f).
-Proof. rewrite number_of_text. cbn [num_ctor]. rewrite (float_text_rt rt L). reflexivity. Qed.
+Proof. rewrite number_of_text. cbn [num_ctor view]. rewrite (float_text_rt rt L). reflexivity. Qed.
 Lemma text_dec c d : unm_number rt KDec (text rt c (canon_text rt (VDec d))) = Ok (VDec d).
-Proof. rewrite number_of_text. cbn [num_ctor]. rewrite (dec_text_rt rt L). reflexivity. Qed.
+Proof. rewrite number_of_text. cbn [num_ctor view]. rewrite (dec_text_rt rt L). reflexivity. Qed.
 Lemma text_frac c q : unm_number rt KFrac (text rt c (canon_text rt (VFrac q))) = Ok (VFrac q).
-Proof. rewrite number_of_text. cbn [num_ctor]. rewrite (frac_text_rt rt L). reflexivity. Qed.
+Proof. rewrite number_of_text. cbn [num_ctor view]. rewrite (frac_text_rt rt L). reflexivity. Qed.
+
+(* bool(text) is "the text is not empty", in every carrier: bool('false') is True *)
+Lemma text_bool c s : unm_number rt KBool (text rt c s) = Ok (VBool (negb (is_empty s))).
+Proof. rewrite number_of_text. reflexivity. Qed.
 
 Lemma text_uuid c u : hashable c = true -> unm_uuid rt (text rt c (canon_text rt (VUuid u))) = Ok (VUuid u).
 Proof.
-  intros Hc. unfold unm_uuid. rewrite (uuid_text_not_loadable rt L u c Hc). cbn [bind].
+  intros Hc. unfold unm_uuid. rewrite (uuid_text_not_loadable rt L u c Hc). cbn [bind as_int as_str view].
   rewrite (uuid_text_rt rt L). reflexivity.
 Qed.
 
 Lemma text_path c p : unm_path rt (text rt c (canon_text rt (VPath p))) = Ok (VPath p).
-Proof. unfold unm_path. rewrite decode_text. cbn [bind]. rewrite (path_text_rt rt L). reflexivity. Qed.
+Proof. unfold unm_path. rewrite decode_text. cbn [bind as_str view]. rewrite (path_text_rt rt L). reflexivity. Qed.
 
 Lemma text_shape c s : exists c' b, text rt c s = VText c' b.
 Proof. destruct c; cbn [text]; eauto. Qed.
@@ -76,7 +80,7 @@ Proof.
   intros Hv. unfold unm_date.
   assert (Hs : forall A (x y0 : A), match text rt c (canon_text rt (VDate y m d)) with VDate _ _ _ => x | _ => y0 end = y0)
     by (intros; destruct c; reflexivity).
-  rewrite Hs. replace (is_number (text rt c (canon_text rt (VDate y m d)))) with false by (destruct c; reflexivity).
+  rewrite Hs. replace (is_number rt (text rt c (canon_text rt (VDate y m d)))) with false by (destruct c; reflexivity).
   cbn [bind]. rewrite decode_text. cbn [bind].
   rewrite (dateparse_plain _ KDate (PDT (midnight_utc y m d))); [reflexivity|discriminate| | |].
   - apply (canon_unsigned rt L (VDate y m d)). reflexivity.
@@ -91,7 +95,7 @@ Proof.
   unfold unm_datetime.
   assert (Hs : forall A (x y0 : A), match text rt c (canon_text rt (VDateTime d)) with VDateTime _ => x | _ => y0 end = y0)
     by (intros; destruct c; reflexivity).
-  rewrite Hs. replace (is_number (text rt c (canon_text rt (VDateTime d)))) with false by (destruct c; reflexivity).
+  rewrite Hs. replace (is_number rt (text rt c (canon_text rt (VDateTime d)))) with false by (destruct c; reflexivity).
   cbn [bind]. rewrite decode_text. cbn [bind].
   rewrite (dateparse_plain _ KDateTime (PDT d')); [reflexivity|discriminate| |exact Hp|].
   - apply (canon_unsigned rt L (VDateTime d)). reflexivity.
@@ -108,7 +112,7 @@ Proof.
   unfold unm_time.
   assert (Hs : forall A (x y0 : A), match text rt c (canon_text rt (VTime t)) with VTime _ => x | _ => y0 end = y0)
     by (intros; destruct c; reflexivity).
-  rewrite Hs. rewrite decode_text. cbn [bind is_number].
+  rewrite Hs. rewrite decode_text. cbn [bind is_number view].
   unfold dateparse. rewrite Hp.
   assert (Hoff : is_some_off t' = true).
   { unfold valid_tm in Hv. apply andb_true_iff in Hv as [_ Hv]. destruct (valid_off_some _ Hv) as [z Hz].
@@ -188,7 +192,7 @@ Lemma text_timedelta c td : td_in_range td = true ->
   = Ok (VTimeDelta (fst (fst td)) (snd (fst td)) (snd td)).
 Proof.
   intros Hr. unfold unm_timedelta.
-  replace (is_number (text rt c _)) with false by (destruct c; reflexivity).
+  replace (is_number rt (text rt c _)) with false by (destruct c; reflexivity).
   rewrite decode_text. cbn [bind isoformat].
   destruct td as [[d s] us]. cbn [fst snd]. rewrite (dateparse_duration (d, s, us) Hr). reflexivity.
 Qed.
@@ -199,16 +203,16 @@ End Laws.
 Section Plumbing.
 Variable rt : Runtime.
 
-Lemma num_to_datetime x : is_number x = true ->
+Lemma num_to_datetime x : is_number rt x = true ->
   unm_datetime rt x = fromtimestamp_utc rt x >>= fun d => Ok (VDateTime d).
-Proof. destruct x; try discriminate; intros _; unfold unm_datetime; cbn [is_number]; destruct (fromtimestamp_utc rt _); reflexivity. Qed.
-Lemma num_to_date x : is_number x = true ->
+Proof. intros H. unfold unm_datetime. destruct x; try discriminate H; rewrite H; cbn [bind]; destruct (fromtimestamp_utc rt _); reflexivity. Qed.
+Lemma num_to_date x : is_number rt x = true ->
   unm_date rt x = fromtimestamp_utc rt x >>= fun d => Ok (VDate (dy d) (dmo d) (dd d)).
-Proof. destruct x; try discriminate; intros _; unfold unm_date; cbn [is_number]; destruct (fromtimestamp_utc rt _); reflexivity. Qed.
-Lemma num_to_time x : is_number x = true ->
+Proof. intros H. unfold unm_date. destruct x; try discriminate H; rewrite H; cbn [bind]; destruct (fromtimestamp_utc rt _); reflexivity. Qed.
+Lemma num_to_time x : is_number rt x = true ->
   unm_time rt x = fromtimestamp_utc rt x >>= fun d => Ok (VTime (time_of d)).
-Proof. destruct x; try discriminate; intros _; unfold unm_time; cbn [decode bind is_number]; destruct (fromtimestamp_utc rt _); reflexivity. Qed.
-Lemma num_to_timedelta x : is_number x = true ->
+Proof. intros H. unfold unm_time. destruct x; try discriminate H; cbn [decode bind]; rewrite H; cbn [bind]; destruct (fromtimestamp_utc rt _); reflexivity. Qed.
+Lemma num_to_timedelta x : is_number rt x = true ->
   unm_timedelta rt x = td_of_seconds rt x >>= fun '(d, s, us) => Ok (VTimeDelta d s us).
 Proof. intros H. unfold unm_timedelta. rewrite H. reflexivity. Qed.
 
@@ -229,6 +233,30 @@ Lemma temporal_to_bytes v : is_temporal v = true -> unm_bytes rt v = Ok (VText C
 Proof. destruct v; try discriminate; reflexivity. Qed.
 
 End Plumbing.
+
+(* ---- subclass instances: True is an int, members of mixin enums are ints / strs ---- *)
+Section Subclass.
+Variable rt : Runtime.
+Lemma bool_is_int b : unm_number rt KInt (VBool b) = Ok (VBool b).
+Proof. reflexivity. Qed.
+Lemma int_member_is_int m z : enum_base rt m = Some (VInt z) -> unm_number rt KInt (VEnum m) = Ok (VEnum m).
+Proof. intros H. unfold unm_number, isinstance_num, view. cbn [decode bind]. rewrite H. reflexivity. Qed.
+Lemma str_member_is_str m s : enum_base rt m = Some (VText CStr s) -> unm_str rt (VEnum m) = Ok (VEnum m).
+Proof. intros H. unfold unm_str, as_str, view. cbn [decode bind]. rewrite H. reflexivity. Qed.
+(* UUIDUnmarshaller: a loaded True / False is an int: UUID(int=1) / UUID(int=0) *)
+Lemma uuid_of_loaded_bool v b : load rt v = Ok (VBool b) ->
+  unm_uuid rt v = uuid_of_int rt (b2z b) >>= fun u => Ok (VUuid u).
+Proof. intros H. unfold unm_uuid. rewrite H. reflexivity. Qed.
+(* a member of another enum class is not handed back: it is looked up like any other value *)
+Lemma foreign_member_looked_up m : is_member rt m = false ->
+  unm_enum rt (VEnum m) =
+    match enum_of_val rt (VEnum m) with
+    | Ok m' => Ok (VEnum m')
+    | Raise EValue | Raise EType => load rt (VEnum m) >>= enum_of_val rt >>= fun m' => Ok (VEnum m')
+    | Raise e => Raise e
+    | Unmodelled => Unmodelled end.
+Proof. intros H. unfold unm_enum. rewrite H. reflexivity. Qed.
+End Subclass.
 
 Lemma memo_transparent memo td :
   Forall (fun e => snd e = iso_duration (fst e)) memo -> cached_iso memo td = iso_duration td.
